@@ -680,13 +680,16 @@ class Spectrum(Generic[_TData]):
                     "input spectrum", spectrum.dtype, "spectrum", self.dtype
                 )
 
-        self._increase_capacity(sum(spectrum.sample_count for spectrum in spectrums))
+        # Read the sample counts up front: when a spectrum is appended to itself, its sample count
+        # changes while the samples are being appended.
+        sample_counts = [spectrum.sample_count for spectrum in spectrums]
+        self._increase_capacity(sum(sample_counts))
 
         offset = self._start_index + self._sample_count
-        for spectrum in spectrums:
-            self._data[offset : offset + spectrum.sample_count] = spectrum.data
-            offset += spectrum.sample_count
-            self._sample_count += spectrum.sample_count
+        for spectrum, sample_count in zip(spectrums, sample_counts):
+            self._data[offset : offset + sample_count] = spectrum.data[:sample_count]
+            offset += sample_count
+            self._sample_count += sample_count
             self._extended_properties._merge(spectrum._extended_properties)
 
     def _increase_capacity(self, amount: int) -> None:
